@@ -540,6 +540,17 @@ impl W {
                 format!("retain predicate called for object {} which is not idle ({:?}, in hand {:?})", id, o.loc, o.in_hand),
             );
         }
+        if !keep {
+            // the object leaves the pool now (another thread may be waiting for the lock):
+            // it is handed to the caller of retain()
+            self.idle_ref.retain(|x| *x != id);
+            if let Some(o) = self.objs.get_mut(id as usize) {
+                if !o.destroyed && o.loc == Loc::InPool {
+                    o.loc = Loc::Out;
+                    o.in_hand = None;
+                }
+            }
+        }
         if let Some(seen) = o.last_seen {
             if seen != m {
                 self.flag(
